@@ -275,7 +275,7 @@ func TestSeedInvalidMnemonic(t *testing.T) {
 			}
 			info := h.Info{Class: cls, NT: true}
 			got, err := bip39.MnemonicToSeed(append(bip39.Mnemonic{}, c.Words...), "TREZOR")
-			if c.Mut == "denormalized-word" && err == nil {
+			if strings.Contains(c.Mut, "denormalized-word") && err == nil {
 				// the statement leaves open whether words handed over in a non-normalised spelling are
 				// normalised first; what it excludes is a seed that belongs to neither reading
 				nw := make([]string, len(c.Words))
